@@ -49,6 +49,10 @@ SCENARIOS += [
     # governed by its ACSE timeout (0.4 s), not by its DIMSE timeout (6 s)
     {"name": "release-while-peer-busy-longer-than-acse-timeout", "ops": ["echo-bg"], "end": "release", "handler": "block-2.5",
      "req_timeouts": (0.4, 6.0, 6.0, 3.0)},
+    # release() called too early (before the association is established) is a no-op and must stay one: afterwards the peer ends it
+    {"name": "early-release-call-by-requestor-then-acceptor-releases", "ops": [], "end": "wait", "server": ["release", "idle"],
+     "early_release": "req"},
+    {"name": "early-release-call-by-acceptor-then-requestor-releases", "ops": ["echo"], "end": "release", "early_release": "acc"},
     {"name": "release-short-artim-slow-handler", "ops": ["echo"], "end": "release", "short_artim": "acc", "slow": {"acc|AR-4": 0.15}},
     # a second user thread of the requestor releases while its own C-ECHO is still being served by a slow handler ...
     {"name": "release-from-second-thread-during-own-echo", "ops": ["echo-bg"], "end": "release", "handler": "block"},
@@ -183,7 +187,12 @@ def run(scn, seed=0, yields=None, raise_mask_acc=None, raise_mask_req=None, watc
 
     # the scenario's own EVT_ESTABLISHED handler is bound FIRST: evt.trigger stops calling an event's remaining handlers after
     # one raised, so a raising recorder handler (C26) must not be able to switch the scenario's own plumbing off
-    handlers = [(evt.EVT_ESTABLISHED, on_established)] + rec.make("acc", raise_mask_acc) + [
+    def early_release(event):
+        try:
+            event.assoc.release()
+        except Exception as exc:
+            res.setdefault("user_exc", []).append("early release(): %r" % (exc,))
+    handlers = [(evt.EVT_ESTABLISHED, on_established)] + ([(evt.EVT_REQUESTED, early_release)] if scn.get("early_release") == "acc" else []) + rec.make("acc", raise_mask_acc) + [
         (evt.EVT_C_ECHO, on_echo), (evt.EVT_C_STORE, on_store), (evt.EVT_C_FIND, on_find), (evt.EVT_FSM_TRANSITION, on_fsm_acc)]
     server, port = harness.start_server(ae_acc, handlers)
     res = {"req": {}, "acc": {}}
@@ -230,7 +239,7 @@ def run(scn, seed=0, yields=None, raise_mask_acc=None, raise_mask_req=None, watc
 
     def requestor():
         try:
-            assoc = ae_req.associate("127.0.0.1", port, evt_handlers=rec.make("req", raise_mask_req),
+            assoc = ae_req.associate("127.0.0.1", port, evt_handlers=([(evt.EVT_ACCEPTED, early_release)] if scn.get("early_release") == "req" else []) + rec.make("req", raise_mask_req),
                                      ae_title="WRONG" if scn.get("reject") else "ACCEPTOR")
             res["req"]["assoc"] = assoc
             if not assoc.is_established:
@@ -329,7 +338,14 @@ def run(scn, seed=0, yields=None, raise_mask_acc=None, raise_mask_req=None, watc
             return None
         return {"established": a.is_established, "released": a.is_released, "aborted": a.is_aborted, "rejected": a.is_rejected,
                 "alive": a.is_alive(), "dul_alive": a.dul.is_alive(), "fsm": a.dul.state_machine.current_state}
-    out = {"history": rec.events, "req": flags(req_assoc), "acc": flags(a_assoc), "statuses": res["req"].get("status"),
+    # stable-stack rule, applied BEFORE the AEs are stopped (stopping them aborts and thereby frees a blocked reactor)
+    parked = []
+    for (a, al, dl, s_) in taps.assoc_threads():
+        for th in ([a] if al else []) + ([a.dul] if dl else []):
+            same, stack = taps.stable_block(th, 1.0)
+            if same:
+                parked.append((a.mode, th.name.split("@")[0], stack[-2:]))
+    out = {"parked_threads": parked, "history": rec.events, "req": flags(req_assoc), "acc": flags(a_assoc), "statuses": res["req"].get("status"),
            "user_exc": res.get("user_exc"), "quiet": quiet_ok, "release_call_s": res["req"].get("release_call_s"),
            "req_acse_timeout": scn.get("req_timeouts", (3.0,))[0], "wall": round(time.time() - t0, 2),
            "requestor_returned": not rt.is_alive(), "open_sockets": len(taps.open_sockets()),
